@@ -7,7 +7,8 @@
 
    params   = flavour (0 plain, 1 cached, 2 test, 3 plain and cached reporter) :: the clock script (the
               i-th reading of the clock; 0 once the script is exhausted);
-   input    = Ev 40 [] (root prefix :: root tags) then one event per call
+   input    = Ev 40 (the root scope's SanitizeOptions, [] = none) (root prefix ::
+              root tags, as given) then one event per call
               (41 SubScope, 42 Tagged, 43 Timer, 44 Record, 45 pass, 46 Start,
               47 Histogram, 48 histogram Start, 49 Stop, 50 NewCall, 51 Exec);
    observed = per call: what the reporter was called with during that call
@@ -22,7 +23,7 @@
               write down: the model still takes the step, nothing is compared
               for that call.  (The harness's direct predicate looks at every call.) *)
 From Coq Require Import ZArith List Bool.
-From Tally Require Import Base.Obs Model.Buckets Model.Timer.
+From Tally Require Import Base.Obs Model.Buckets Model.Sanitize Model.Timer.
 Import ListNotations.
 Open Scope Z_scope.
 
@@ -47,6 +48,35 @@ Definition op_of_ev (e : ev) : op :=
       else if k =? 50 then OCall h n
       else if k =? 51 then OExec h (match r with d :: _ => negb (d =? 0) | [] => false end)
       else OPass
+  end.
+
+(* SanitizeOptions as integers: [] = none; else the replacement character, then
+   for names, keys, values: number of ranges, lo hi ..., number of extra
+   characters, the characters *)
+Fixpoint take_pairs (n : nat) (l : list Z) : list (Z * Z) * list Z :=
+  match n, l with
+  | S m, a :: b :: r => let p := take_pairs m r in ((a, b) :: fst p, snd p)
+  | _, _ => ([], l)
+  end.
+Definition parse_tab (l : list Z) : vchars * list Z :=
+  match l with
+  | nr :: r =>
+      let p := take_pairs (Z.to_nat nr) r in
+      match snd p with
+      | nc :: r2 => (VC (fst p) (firstn (Z.to_nat nc) r2), skipn (Z.to_nat nc) r2)
+      | [] => (VC (fst p) [], [])
+      end
+  | [] => (VC [] [], [])
+  end.
+Definition sanz_of (l : list Z) : sanz :=
+  match l with
+  | [] => san_id
+  | r :: l1 =>
+      let tn := parse_tab l1 in
+      let tk := parse_tab (snd tn) in
+      let tv := parse_tab (snd tk) in
+      let o := Some (SO (fst tn) (fst tk) (fst tv) r) in
+      San (san o Sanitize.KName) (san o Sanitize.KKey) (san o Sanitize.KValue)
   end.
 
 Definition flavour_of (z : Z) : flavour :=
@@ -86,18 +116,18 @@ Definition expected (fl : flavour) (s s' : state) : list ev :=
 
 Definition is_pass (o : op) : bool := match o with OPass => true | _ => false end.
 
-Fixpoint walk (fl : flavour) (clk : nat -> Z) (s : state) (ops : list op)
+Fixpoint walk (sz : sanz) (fl : flavour) (clk : nat -> Z) (s : state) (ops : list op)
               (segs : list (bool * list ev * list Z)) (i : Z) : Z :=
   match ops, segs with
   | [], [] => 0
   | o :: ops', (looked, seg, mark) :: segs' =>
-      let s' := step fl clk s o in
+      let s' := step sz fl clk s o in
       let ex := expected fl s s' in
       let same := match fl with
                   | FTest => perm_eqb ex seg
                   | _ => if is_pass o then perm_eqb ex seg else evs_eqb ex seg
                   end in
-      if negb looked || (same && zs_eqb mark [Z.of_nat (nclk s')]) then walk fl clk s' ops' segs' (i + 1) else i
+      if negb looked || (same && zs_eqb mark [Z.of_nat (nclk s')]) then walk sz fl clk s' ops' segs' (i + 1) else i
   | _, _ => 1000
   end.
 
@@ -107,7 +137,8 @@ Definition check (c : gcase) : Z :=
       let fl := flavour_of f in
       let clk := fun i => nth i script 0 in
       let root := (match es r with p :: _ => p | [] => [] end, unflat (tl (es r))) in
-      walk fl clk (init root) (map op_of_ev evs) (split_obs (gobserved c) []) 1
+      let sz := sanz_of (ei r) in
+      walk sz fl clk (init sz root) (map op_of_ev evs) (split_obs (gobserved c) []) 1
   | _, _ => 2000
   end.
 
